@@ -1,8 +1,38 @@
 INFO = {
     "level": "proof",
-    "level_text": "time_in_range is proved equal to the cyclic-interval specification ((x - start) mod 86400 < (end - start) mod 86400: start inclusive, end exclusive, wrapping past midnight, empty when equal) for all seconds of day; the schedule closure built per row of the schedules file is proved (closure captured from the real enclosing function) to return exactly `time-of-day(sim_time) in shift`; HumanAvailable.update / HumanUnavailable.update are proved for all states to leave the driver available iff the schedule says so, to change nothing but that vehicle's driver_state, and to file exactly one schedule report iff availability flipped; perform_driver_state_updates (a fold, inductive invariant) keeps the state well-formed and touches nothing else; it runs on the pre-tick time, before instructions are generated (StepSimulation.update).",
+    "level_text": "StepSimulation.update is a pipeline (data-flow rule on the real AST): the instruction generators, the built-in dispatcher included, consume the state produced by this step's driver update, so they see this step's availability. time_in_range is proved equal to the cyclic-interval specification ((x - start) mod 86400 < (end - start) mod 86400: start inclusive, end exclusive, wrapping past midnight, empty when equal) for all seconds of day; the schedule closure built per row of the schedules file is proved (closure captured from the real enclosing function) to return exactly `time-of-day(sim_time) in shift`; HumanAvailable.update / HumanUnavailable.update are proved for all states to leave the driver available iff the schedule says so, to change nothing but that vehicle's driver_state, and to file exactly one schedule report iff availability flipped; perform_driver_state_updates (a fold, inductive invariant) keeps the state well-formed and touches nothing else; it runs on the pre-tick time, before instructions are generated (StepSimulation.update).",
     "level_note": "datetime.utcfromtimestamp(t).time() is modelled as t mod 86400 and datetime.time values as seconds of day (assumed); parsing of HH:MM:SS trusted; a driver whose schedule id is missing from the environment stays as it is (as the code does); the dispatcher's `available` filter is a nested closure not yet under contract; on an error inside one driver's update the fold returns the initial state (latent defect noted in DESIGN 7; it keeps the invariants).",
     "trusted_base": ["datetime time-of-day = epoch seconds mod 86400"],
     "assumptions": ["every human driver's schedule id is present in env.schedules"],
     "not_decided": ["Dispatcher._is_valid_for_dispatch requires driver_state.available (closure over scipy-based assignment code)"],
 }
+
+def _pipeline_obligation(repo):
+    """StepSimulation.update is a pipeline: drivers are updated first, and the instruction generators (built-in dispatcher
+    included), apply_instructions, the vehicle updates and tick each consume the state produced by the stage before — in
+    particular the dispatcher sees this step's availability (after the shift check), not the previous step's"""
+    import ast
+    fn, _, _ = repo.func("nrel/hive/state/simulation_state/update/step_simulation.py::StepSimulation.update")
+    produced = {}          # callee name -> variable its result is bound to
+    consumed = {}          # callee name -> [argument texts]
+    for node in ast.walk(fn):
+        if isinstance(node, ast.Assign) and isinstance(node.value, ast.Call):
+            callee = ast.unparse(node.value.func).split(".")[-1]
+            tgt = node.targets[0]
+            name = tgt.id if isinstance(tgt, ast.Name) else (tgt.elts[0].id if isinstance(tgt, ast.Tuple) and isinstance(tgt.elts[0], ast.Name) else None)
+            produced[callee] = name
+            consumed[callee] = [ast.unparse(a) for a in node.value.args] + [ast.unparse(k.value) for k in node.value.keywords]
+    stages = [("perform_driver_state_updates", "generate_instructions"), ("perform_driver_state_updates", "apply_instructions"),
+              ("apply_instructions", "perform_vehicle_state_updates"), ("perform_vehicle_state_updates", "tick")]
+    bad = []
+    for src, dst in stages:
+        if produced.get(src) is None or dst not in consumed:
+            bad.append(f"stage {src} -> {dst} not found")
+        elif produced[src] not in consumed[dst]:
+            bad.append(f"{dst}({', '.join(consumed[dst])}) does not consume {produced[src]}, the state produced by {src}")
+    return {"id": "C20.step_is_a_pipeline.StepSimulation.update", "kind": "data-flow-rule", "status": "refuted" if bad else "proved",
+            "backend": "ast-rule", "secs": 0.0, "props": ["C20"], "detail": "; ".join(bad)}
+
+
+def extra_obligations(repo, world, ex, R, tier, timeout_ms):
+    return [_pipeline_obligation(repo)]
